@@ -320,6 +320,37 @@ pub fn main(ctx: &Ctx) -> i32 {
                 }
             }
         }
+        // the same object again after it changed (same size, other elements; cleared and
+        // refilled; a clone changed): what is written is the value as it is now
+        if !keys.is_empty() {
+            let mut s2 = s.clone();
+            let _ = round_trip(&s2);
+            let first = keys[0].to_string();
+            s.remove(&first);
+            s.insert("replacement-element".to_string());
+            s2.clear();
+            for k in keys.iter().rev() {
+                s2.insert(format!("{}'", k));
+            }
+            for (label, set, want_keys) in [
+                ("element replaced", &s, keys.iter().skip(1).map(|k| k.to_string()).chain(std::iter::once("replacement-element".to_string())).collect::<Vec<_>>()),
+                ("cleared and refilled", &s2, keys.iter().map(|k| format!("{}'", k)).collect::<Vec<_>>()),
+            ] {
+                ctx.count("values_serialised_again_after_a_change", 1);
+                match round_trip(set) {
+                    Err(e) => fail(ctx, "c17:stringhashset-round-trip:after-change", "StringHashSet", format!("{:?} then {}", keys, label), e),
+                    Ok(val) => {
+                        let want: Map<String, Value> = want_keys.iter().map(|k| (k.clone(), json!({}))).collect();
+                        if val != Value::Object(want) {
+                            fail(ctx, "c17:stringhashset-shape:after-change", "StringHashSet", format!("{:?} then {}", keys, label), format!("serialised as {} after the change", val));
+                        }
+                    }
+                }
+            }
+            // back to the original value for what follows
+            s.remove("replacement-element");
+            s.insert(first);
+        }
         // maps of several value types with the same keys
         let mut m: StringHashMap<i64> = StringHashMap::new();
         let mut mv: StringHashMap<Vec<Option<String>>> = StringHashMap::new();
